@@ -121,6 +121,16 @@ Theorem C14_quoted_string_value : forall len start delim, delim < 128 -> delim <
   quoted_spec fs delim (lossy (rest c)) = Some (s, lossy (rest c')) /\ bytes_ok (rest c').
 Proof. exact quoted_string_value. Qed.
 
+(* numbers, partial: the token's digit string is a non-empty string of ASCII
+   digits and the effective exponent fits i64 (what f64 parsing downstream relies
+   on).  The full statement — digits/exponent denote the literal's rational,
+   underscores ignored — is not proved. *)
+Theorem C14_number_value_partial : forall len start b0 c t c',
+  lex_number len start b0 c = Ok (t, c') ->
+  exists n, tok_kind t = TNumber n /\ all_digits (num_digits n) /\ num_digits n <> [] /\
+            (i64_min <= num_exp n <= i64_max)%Z.
+Proof. exact number_shape. Qed.
+
 (* NOT proved (see notes/C14.md): the text-block and number value statements.
    Covered by K and by the generator-known-value oracle of the check. *)
 
@@ -164,5 +174,6 @@ Print Assumptions C14_verbatim_string_value.
 Print Assumptions C14_surrogate_pairs.
 Print Assumptions C14_surrogate_pairs_onto.
 Print Assumptions C14_quoted_string_value.
+Print Assumptions C14_number_value_partial.
 Print Assumptions C14_quoted_spec_example.
 Print Assumptions C14_nonvacuous.
